@@ -16,6 +16,7 @@
    conversion, stated next to each theorem. *)
 From Coq Require Import ZArith NArith List Bool Lia Arith.
 Require Import Model.Base Model.Ir Model.SsaCheck Model.SsaErase Model.Ssa.
+Require Export Model.SsaPre.
 Require Import Proofs.IrInd Proofs.IrFacts Proofs.SsaNoPanic.
 Import ListNotations.
 
@@ -429,12 +430,6 @@ Qed.
 
 (* ---- declarations re-issued per version ---- *)
 (* a declaration of a local declares one variable (all listed names have the key of the first) *)
-Definition decl_names_ok (s : stmt) : bool :=
-  match s with
-  | SDecl _ (name :: rest) TLocal _ => forallb (vname_sim name) rest
-  | _ => true
-  end.
-
 Lemma versions_of_cons env v : exists n tl, versions_of env v = n :: tl.
 Proof. unfold versions_of. destruct (vget (se_global env) (key_of v)); simpl; eauto. Qed.
 
@@ -481,7 +476,6 @@ Proof.
   cbn [map stmts_sim]. rewrite (update_decl_stmt_sim env x y Hd1 Hs1), (IH ty Hd2 Hs2). reflexivity.
 Qed.
 
-Definition decls_ok (c : cfg) : bool := forallb (fun b => forallb decl_names_ok (b_stmts b)) (c_blocks c).
 
 Lemma update_decls_erases env : forall bs0 bs,
   forallb (fun b => forallb decl_names_ok (b_stmts b)) bs0 = true -> erase_inv bs0 bs ->
@@ -523,36 +517,6 @@ Qed.
 (* the hypothesis: a graph before SSA conversion holds no phi expression     *)
 (* ------------------------------------------------------------------------ *)
 
-Fixpoint expr_nophi (e : expr) : bool :=
-  let fix l_np (es : list expr) : bool :=
-      match es with [] => true | x :: tl => expr_nophi x && l_np tl end in
-  let fix a_np (acc : list (access expr)) : bool :=
-      match acc with
-      | [] => true
-      | AComp _ :: tl => a_np tl
-      | AIdx x :: tl => expr_nophi x && a_np tl
-      end in
-  match e with
-  | ENum _ _ | EVar _ _ => true
-  | EPhi _ _ => false
-  | EInfix _ l r _ => expr_nophi l && expr_nophi r
-  | EPrefix _ x _ => expr_nophi x
-  | ESwitch c t f _ => expr_nophi c && expr_nophi t && expr_nophi f
-  | ECall _ args _ => l_np args
-  | EArray vs _ => l_np vs
-  | EAccess _ acc _ => a_np acc
-  | EUpdate _ acc rhe _ => a_np acc && expr_nophi rhe
-  end.
-
-Fixpoint list_nophi (es : list expr) : bool :=
-  match es with [] => true | x :: tl => expr_nophi x && list_nophi tl end.
-Fixpoint acc_nophi (acc : list (access expr)) : bool :=
-  match acc with
-  | [] => true
-  | AComp _ :: tl => acc_nophi tl
-  | AIdx x :: tl => expr_nophi x && acc_nophi tl
-  end.
-
 Lemma expr_nophi_call n args k : expr_nophi (ECall n args k) = list_nophi args.
 Proof. reflexivity. Qed.
 Lemma expr_nophi_array vs k : expr_nophi (EArray vs k) = list_nophi vs.
@@ -561,22 +525,6 @@ Lemma expr_nophi_access v acc k : expr_nophi (EAccess v acc k) = acc_nophi acc.
 Proof. reflexivity. Qed.
 Lemma expr_nophi_update v acc rhe k : expr_nophi (EUpdate v acc rhe k) = acc_nophi acc && expr_nophi rhe.
 Proof. reflexivity. Qed.
-
-Definition logarg_nophi (a : logarg) : bool := match a with LStr => true | LExpr e => expr_nophi e end.
-
-Definition stmt_nophi (s : stmt) : bool :=
-  match s with
-  | SDecl _ _ _ dims => list_nophi dims
-  | SSubst _ _ _ rhe _ _ => expr_nophi rhe
-  | SCeq _ l r => expr_nophi l && expr_nophi r
-  | SLog _ args => forallb logarg_nophi args
-  | SIf _ c _ _ => expr_nophi c
-  | SRet _ e => expr_nophi e
-  | SAssert _ e => expr_nophi e
-  end.
-
-(* no phi expression anywhere in the graph (IR lifting never builds one) *)
-Definition phi_free (c : cfg) : bool := forallb (fun b => forallb stmt_nophi (b_stmts b)) (c_blocks c).
 
 Lemma ident_eqb_refl a : ident_eqb a a = true.
 Proof. apply ident_eqb_eq'. reflexivity. Qed.
@@ -1369,9 +1317,6 @@ Theorem into_ssa_unique_defs_check : forall frontier children c c',
 Proof. intros. apply NoDup_nodup_v. eapply into_ssa_unique_defs_unversioned; eassumption. Qed.
 
 (* [children_cover] as a computation *)
-Definition children_coverb (children : list (list N)) (n : nat) : bool :=
-  forallb (fun i => existsb (Nat.eqb i) (preorder (S n) children 0)) (seq 0 n).
-
 Lemma children_coverb_spec children n : children_coverb children n = true -> children_cover children n.
 Proof.
   unfold children_coverb, children_cover. rewrite forallb_forall. intros H i Hi.
@@ -1381,9 +1326,6 @@ Qed.
 
 (* the graph before SSA conversion: no phi expression, one variable per local declaration,
    parameters declared as locals *)
-Definition pre_ssa_ok (c : cfg) : bool :=
-  phi_free c && decls_ok c && forallb (is_local_in (c_decls c)) (c_params c).
-
 (* the output of the construction passes the whole erasure validator *)
 Theorem into_ssa_passes_erase_check : forall frontier children c c',
   pre_ssa_ok c = true -> children_cover children (length (c_blocks c)) ->
